@@ -37,6 +37,7 @@ import (
 	"encoding/hex"
 	"fmt"
 	"math/big"
+	"strconv"
 	"strings"
 	"sync"
 	"time"
@@ -1211,6 +1212,7 @@ func genC19(c *Ctx) {
 	}
 	genC19Hist(c)
 	genC19Config(c)
+	genC19Derived(c)
 	genC19Clock(c)
 	for _, e := range c19ExpireCases {
 		in := sx.L(sx.Z(e.lt), sx.Z(e.wait))
@@ -1628,6 +1630,12 @@ func genC19Corpus(c *Ctx) {
 		c.Emit("c19.payload", sx.L(sx.Str(long), sx.Z(0), sx.Z(c19Now*1e9+500000000), sx.Str(pl), c19HmacOracle(long, pl)), "corpus|long-secret")
 		c.Emit("c19.genpayload", sx.L(sx.Str(long), sx.Z(0), sx.Str(o)), "corpus|long-secret")
 	}
+	// a genuine payload followed by one hex digit / a non-hex character / "0g" / a newline: not a payload
+	good := c19MakePayload(secret, r.Bytes(8), c19Far)
+	for _, t := range []string{"", "0", "!", "0g", "zz", "\n", "00"} {
+		pl := good + t
+		c.Emit("c19.payload", sx.L(sx.Str(secret), sx.Z(0), sx.Z(c19Now*1e9+500000000), sx.Str(pl), c19HmacOracle(secret, pl)), "corpus|payload-tail")
+	}
 	// a generated payload with lifetime 2 s presented 2.3 s later must be rejected (lifetime counted once)
 	c.Emit("c19.expire", sx.L(sx.Z(2), sx.Z(2300)), "corpus|expired")
 }
@@ -1849,5 +1857,184 @@ func genC19Hist(c *Ctx) {
 				c19EmitHist(c, "random", secret, domain, false, calls)
 			}
 		}
+	}
+}
+
+// ---------------------------------------------------------------- malformed texts derived from genuine ones
+
+type c19Mut struct{ name, text string }
+
+// c19TextMutations: a genuine text with every kind of tail and prefix, case changes, whitespace and
+// NUL inside, odd lengths around the genuine one, one character replaced.  `alien` is a character
+// outside the alphabet of the text, `digit` one inside it.
+func c19TextMutations(r *prng.R, good string, digit, alien string) []c19Mut {
+	var out []c19Mut
+	add := func(n, t string) {
+		if t != good {
+			out = append(out, c19Mut{n, t})
+		}
+	}
+	for _, t := range []string{digit, digit + digit, digit + digit + digit, alien, alien + alien, digit + alien, alien + digit, "\n", "\r\n", " ", "\t", "\x00",
+		"=", "==", "zz", "0g", "!", "\xff", "\u00a0", good} {
+		add("tail", good+t)
+		add("head", t+good)
+	}
+	for k := 1; k <= 4 && k < len(good); k++ {
+		add("cut-tail", good[:len(good)-k])
+		add("cut-head", good[k:])
+	}
+	add("upper", strings.ToUpper(good))
+	add("lower", strings.ToLower(good))
+	mixed := []byte(good)
+	for i := range mixed {
+		if r.Bool() {
+			mixed[i] = strings.ToUpper(string(mixed[i]))[0]
+		}
+	}
+	add("mixed-case", string(mixed))
+	if len(good) > 0 {
+		pos := []int{0, len(good) - 1, len(good) / 2, r.Intn(len(good)), r.Intn(len(good))}
+		for _, i := range pos {
+			for _, ins := range []string{" ", "\n", "\x00", alien} {
+				add("insert", good[:i]+ins+good[i:])
+				add("replace", good[:i]+ins+good[i+1:])
+			}
+		}
+	}
+	return out
+}
+
+// independent reading of a raw address text: one ':', decimal int32, at most 64 hex digits
+func c19ReadAddress(a string) (wc int64, addr [32]byte, ok bool) {
+	parts := strings.Split(a, ":")
+	if len(parts) != 2 {
+		return
+	}
+	w, err := strconv.ParseInt(parts[0], 10, 32)
+	if err != nil {
+		return
+	}
+	b, err := hex.DecodeString(parts[1])
+	if err != nil || len(b) > 32 {
+		return
+	}
+	copy(addr[32-len(b):], b)
+	return w, addr, true
+}
+
+// sign the proof over the fields it presents (when they can be read at all)
+func c19Resign(tp *tonconnect.Proof, priv ed25519.PrivateKey) {
+	probe := *tp
+	probe.Proof.Signature = ""
+	if p, err := tonconnect.VerifConvert(&probe); err == nil {
+		msg, _ := tonconnect.VerifCreateMessage(p.WorkChain, p.Address, p.Ts, p.Domain, p.Payload)
+		tp.Proof.Signature = base64.StdEncoding.EncodeToString(ed25519.Sign(priv, msg))
+	}
+}
+
+func genC19Derived(c *Ctx) {
+	r := c.R
+	for rep := 0; rep < c.Scale(1, 4); rep++ {
+		viaSI := rep%2 == 0
+		h := c19MakeHonest(r, c19Versions[r.Intn(len(c19Versions))], viaSI)
+		sigRaw, _ := base64.StdEncoding.DecodeString(h.tp.Proof.Signature)
+		payRaw, _ := hex.DecodeString(h.payload)
+		emit := func(field, name string, tp *tonconnect.Proof, domain string, mustAccept, mustReject bool) {
+			in := c19CheckCase(h.secret, 0, 0, domain, h.ex, tp, h.w.pub)
+			out := c.Emit("c19.check", in, "derived|"+field+"|"+name)
+			switch {
+			case out.IsA("panic"):
+				c.Fail("c19.check", in, "derived-panic", "CheckProof panicked on a "+field+" derived from a genuine one ("+name+")")
+			case !out.IsA("err") && (out.K != sx.KL || len(out.List) != 2 || string(out.List[1].Bytes) != string(h.w.pub)):
+				c.Fail("c19.check", in, "derived-key", "accepted with another key")
+			case mustReject && !out.IsA("err"):
+				c.Fail("c19.check", in, "derived-accepted", fmt.Sprintf("proof with a malformed %s (%s of a genuine one: %q) accepted", field, name, c19FieldOf(tp, field)))
+			case mustAccept && out.IsA("err"):
+				c.Fail("c19.check", in, "derived-rejected", fmt.Sprintf("proof with an equivalent %s (%s) rejected", field, name))
+			}
+		}
+		// payload: the proof is signed over the presented payload text, so only CheckPayload can reject it
+		for _, m := range c19TextMutations(r, h.payload, "0", "g") {
+			tp := h.clone()
+			tp.Proof.Payload = m.text
+			c19Resign(tp, h.w.priv)
+			b, err := hex.DecodeString(m.text)
+			same := err == nil && string(b) == string(payRaw)
+			emit("payload", m.name, tp, h.domain, same, !same)
+			// CheckPayload alone
+			in := sx.L(sx.Str(h.secret), sx.Z(0), sx.Z(c19Now*1e9+500000000), sx.Str(m.text), c19HmacOracle(h.secret, m.text))
+			out := c.Emit("c19.payload", in, "derived|"+m.name)
+			if out.K != sx.KB || out.Bool != same {
+				c.Fail("c19.payload", in, "derived-payload", fmt.Sprintf("CheckPayload(%q) = %s for a text derived (%s) from a genuine payload", m.text, out.String(), m.name))
+			}
+		}
+		// address: hex part and workchain part
+		colon := strings.IndexByte(h.tp.Address, ':')
+		wcT, hexT := h.tp.Address[:colon], h.tp.Address[colon+1:]
+		var addrs []c19Mut
+		for _, m := range c19TextMutations(r, hexT, "0", "g") {
+			addrs = append(addrs, c19Mut{"hex-" + m.name, wcT + ":" + m.text})
+		}
+		for _, m := range c19TextMutations(r, wcT, "0", "x") {
+			addrs = append(addrs, c19Mut{"wc-" + m.name, m.text + ":" + hexT})
+		}
+		for _, m := range addrs {
+			tp := h.clone()
+			tp.Address = m.text
+			c19Resign(tp, h.w.priv)
+			// any readable workchain: the same state-init (and in this harness the same get-method answer)
+			// stands behind the hash in every workchain, and the holder's key signs the presented text
+			_, a, ok := c19ReadAddress(m.text)
+			same := ok && a == [32]byte(h.w.id.Address)
+			if !viaSI {
+				same = ok // the scripted get-method answers the signer's key for whatever account is asked
+			}
+			emit("address", m.name, tp, h.domain, same, !same)
+			sg := h.tp.Proof.Signature
+			cin := sx.L(sx.Str(m.text), sx.Str(sg), c19B64Oracle(sg))
+			c.Emit("c19.conv", cin, "derived|"+strings.SplitN(m.name, "-", 2)[0])
+		}
+		// signature text
+		for _, m := range c19TextMutations(r, h.tp.Proof.Signature, "A", "!") {
+			tp := h.clone()
+			tp.Proof.Signature = m.text
+			b, err := base64.StdEncoding.DecodeString(m.text)
+			same := err == nil && string(b) == string(sigRaw)
+			emit("signature", m.name, tp, h.domain, same, !same)
+		}
+		// state-init text (the key can only come from it when the get-method fails)
+		if viaSI {
+			siRaw, _ := base64.StdEncoding.DecodeString(h.tp.Proof.StateInit)
+			for _, m := range c19TextMutations(r, h.tp.Proof.StateInit, "A", "!") {
+				tp := h.clone()
+				tp.Proof.StateInit = m.text
+				b, err := base64.StdEncoding.DecodeString(m.text)
+				same := err == nil && string(b) == string(siRaw)
+				emit("stateinit", m.name, tp, h.domain, same, err != nil)
+			}
+		}
+		// domain: presented (and signed over) vs configured
+		for _, m := range c19TextMutations(r, h.domain, "a", "\x01") {
+			tp := h.clone()
+			tp.Proof.Domain = m.text
+			c19Resign(tp, h.w.priv)
+			emit("domain", "proof-"+m.name, tp, h.domain, false, true)
+			emit("domain", "server-"+m.name, h.clone(), m.text, false, true)
+		}
+	}
+}
+
+func c19FieldOf(tp *tonconnect.Proof, field string) string {
+	switch field {
+	case "payload":
+		return tp.Proof.Payload
+	case "address":
+		return tp.Address
+	case "signature":
+		return tp.Proof.Signature
+	case "stateinit":
+		return trunc(tp.Proof.StateInit, 40)
+	default:
+		return tp.Proof.Domain
 	}
 }
